@@ -182,9 +182,26 @@ func ruleAwaitedRegistered() check.Rule {
 					if wn := resNode(b.Pkg.TypesInfo, b.Recv, b.Expr); wn != "" && b.Node != nil {
 						fn := innermostFunc(m, b.Pkg, b.Node)
 						registeredAtAll := false
+						// what a registration hands over: AddUnsubscribable(x), or the equivalent Add(x.Unsubscribe)
+						regNode := func(op *model.SubOp) (string, ast.Expr) {
+							switch op.Method {
+							case "AddUnsubscribable":
+								return resNode(op.Pkg.TypesInfo, op.Arg, op.ArgExpr), op.ArgExpr
+							case "Add":
+								if sel, ok := ast.Unparen(op.ArgExpr).(*ast.SelectorExpr); ok && sel.Sel.Name == "Unsubscribe" {
+									var recv *model.AV
+									if op.Arg != nil && op.Arg.Kind == model.AVMethodVal {
+										recv = op.Arg.Recv
+									}
+									return resNode(op.Pkg.TypesInfo, recv, sel.X), sel.X
+								}
+							}
+							return "", nil
+						}
 						for _, op := range sc.SubOps {
-							if op.Method == "AddUnsubscribable" && op.Call != nil && innermostFunc(m, op.Pkg, op.Call) == fn && resNode(op.Pkg.TypesInfo, op.Arg, op.ArgExpr) == wn &&
-								resNode(op.Pkg.TypesInfo, op.Recv, op.RecvExpr) != wn && resNode(op.Pkg.TypesInfo, nil, op.RecvExpr) != resNode(op.Pkg.TypesInfo, nil, op.ArgExpr) {
+							rn, rexpr := regNode(op)
+							if rn != "" && op.Call != nil && innermostFunc(m, op.Pkg, op.Call) == fn && rn == wn &&
+								resNode(op.Pkg.TypesInfo, op.Recv, op.RecvExpr) != wn && resNode(op.Pkg.TypesInfo, nil, op.RecvExpr) != resNode(op.Pkg.TypesInfo, nil, rexpr) {
 								registeredAtAll = true // handed to something other than itself
 							}
 						}
@@ -192,10 +209,11 @@ func ruleAwaitedRegistered() check.Rule {
 							c.Report(armed, fmt.Sprintf("%s/%s/registered-before-wait#%d", sc, model.CtxKey(b.Ctx, b.Slot), cnt["wait"]), b.Pos, "the awaited subscription is never handed to a composite subscription of the operator: while the wait lasts the operator's teardown (returned only afterwards) cannot reach it, and nothing else can unsubscribe this source")
 						}
 						for _, op := range sc.SubOps {
-							if op.Method != "AddUnsubscribable" || op.Call == nil || innermostFunc(m, op.Pkg, op.Call) != fn {
+							rn, _ := regNode(op)
+							if rn == "" || op.Call == nil || innermostFunc(m, op.Pkg, op.Call) != fn {
 								continue
 							}
-							if resNode(op.Pkg.TypesInfo, op.Arg, op.ArgExpr) != wn {
+							if rn != wn {
 								continue
 							}
 							key := fmt.Sprintf("%s/%s/registered-before-wait#%d", sc, model.CtxKey(b.Ctx, b.Slot), cnt["wait"])
